@@ -85,7 +85,10 @@ Proof. reflexivity. Qed.
 Example ex_unsafe_without_safe_write : exists j st, In (j, st) (fresh_points false 2) /\ 1 <= j /\ loadable st = None.
 Proof. exact unsafe_without_safe_write. Qed.
 
-(* fix_output_filenames (Model/FixNames.v, transcription of the name choice; `ex i` = candidate i exists, candidate 0 the
+(* fix_output_filenames (Model/FixNames.v, model of the name choice, executed against Simulation.fix_output_filenames by the
+   correspondence stream `fix-name` of harness/c18.py through Model/FixNamesCheck.v `check_fix_name`: generated directory
+   contents x skip_if_output_exists x overwrite_output x loaded_from_checkpoint, recorded Skip / ValueError / chosen name
+   compared with `fix_name`; `ex i` = candidate i exists, candidate 0 the
    configured name, candidate i the `_i` copy): for EVERY set of existing files, a fresh run (not loaded from a
    checkpoint, overwrite_output = False) either keeps / chooses a name that does NOT exist - the smallest free one,
    at most `_99` - so it never overwrites a results file of a previous simulation; or raises Skip (exactly when
